@@ -34,8 +34,9 @@ TABLE = core.VERIF / "delegation_table.json"
 EXTRA = {
     "C19": ["c/dynmat.c"],  # the inverse transform behind DynmatToForceConstants (force constants rebuilt from eigen-solutions, correlation matrices)
     "C17": ["phonopy/structure/cells.py"],  # get_cell_matrix / get_cell_matrix_from_lattice orient the cell the LAMMPS interface writes and rotate its forces back
-    "C09": ["phonopy/structure/symmetry.py", "phonopy/phonon/moment.py"],  # lattice-vector equivalence decides whether the mesh may be reduced; moments are mesh consumers
     "C12": ["phonopy/api_phonopy.py"],  # group velocities are configured and rebuilt by the Phonopy object
+    "C14": ["phonopy/harmonic/dynamical_matrix.py"],  # run_dynamical_matrix_solver_c is the batch solver behind run_qpoints / run_mesh / run_band_structure: the q-points reach the kernel through it
+    "C09": ["phonopy/structure/symmetry.py", "phonopy/phonon/moment.py", "c/phonopy.c"],  # + the compiled thermal sums and tetrahedron DOS are mesh consumers
 }
 
 
